@@ -73,6 +73,11 @@ def explore(ctx):
             if rng.chance(1, 3):
                 then = " then=" + ((payload(rng) if ct == 1 else mp.enc(mp.gen_value(rng, 2))).hex() or "-")
             lines.append("comp p%d ctype=%d data=%s corrupt=-%s" % (n, ct, d.hex() or "-", then)); n += 1
+        # payloads that inflate far beyond 64 KiB from very little (zeros, a short period): valid streams all the same
+        for size, unit in ((200000, b"\0"), (300000, b"ab"), (1000000 if tier != "quick" else 150000, b"\0\1\2\3")):
+            lines.append("comp p%d ctype=1 data=%s corrupt=-" % (n, (unit * (size // len(unit))).hex())); n += 1
+        lines.append("e2e e%d ctype=1 arg=%s res=%s err=- method=known" % (n, T(("b", b"\0" * 250000)), T(("s", b"z" * 200000)))); n += 1
+        lines.append("e2e e%d ctype=2 arg=%s res=%s err=- method=known" % (n, T(("b", b"\0" * 250000)), T(("s", b"z" * 200000)))); n += 1
         for big in ([50000, 1000000] if tier != "quick" else [50000]):
             lines.append("comp p%d ctype=1 data=%s corrupt=-" % (n, (rng.bytes(64) * (big // 64)).hex())); n += 1
             lines.append("comp p%d ctype=2 data=%s corrupt=-" % (n, mp.enc([("s", rng.bytes(32) * (big // 64))] * 2).hex())); n += 1
